@@ -515,8 +515,8 @@ type gen struct {
 }
 
 // members of the maps a plan step can make the local value
-var atInts = map[string][]string{"$.src.m": {"@.x"}, "$.src.deep.a": {"@.n"}, "$.src.objs[0]": {"@.v"}}
-var atStrs = map[string][]string{"$.src.m": {"@.y"}, "$.src.deep.a": {"@.s"}, "$.src.objs[0]": {"@.k"}}
+var atInts = map[string][]string{"$.src.m": {"@.x"}, "$.src.deep.a": {"@.n"}, "$.src.objs[0]": {"@.v"}, "$.src": {"@.i1", "@.i2"}}
+var atStrs = map[string][]string{"$.src.m": {"@.y"}, "$.src.deep.a": {"@.s"}, "$.src.objs[0]": {"@.k"}, "$.src": {"@.s1", "@.s2"}}
 
 // wrong returns an argument of another kind than wanted (literal, path or call).
 func (g *gen) wrong(kind string, depth int) any {
@@ -788,13 +788,18 @@ func (g *gen) step(i int) any {
 	case 1:
 		return []any{pick(g.t, []string{"del", "delall"}, "n"), pick(g.t, []string{"$.asm.r0", "$.asm.r1", "$.asm.none", "$.src.i1", "$.src.ints[0]", "$.src.objs[*].v", "@.x"}, "p")}
 	case 2:
-		return []any{"set", pick(g.t, []string{"@.x", "$.src.extra", "$.asm.nested.a.b", "$.asm.r0[1]", "$.src.ints[1]"}, "p"), g.arg("any", depth)}
+		if g.at == "$.src" && rapid.Bool().Draw(g.t, "localmulti") {
+			// a local path that matches several places: set is described as setting a single value
+			// (no descent or wildcard over maps: which match is the first is then up to Go's map order)
+			return []any{"set", pick(g.t, []string{"@.ints[*]", "@.objs[*].v", "@.mixed[1:3]", "@.strs[*]"}, "p"), g.arg("any", depth)}
+		}
+		return []any{"set", pick(g.t, []string{"@.x", "$.src.extra", "$.asm.nested.a.b", "$.asm.r0[1]", "$.src.ints[1]", "$.src.ints[*]", "$.src.objs[*].v", "@.src.ints[*]"}, "p"), g.arg("any", depth)}
 	case 3:
 		return []any{"set", []any{pick(g.t, []string{"root", "at"}, "n"), pick(g.t, []any{"asm", "x", "asm.r9", int64(3), "bad path["}, "part"), pick(g.t, []any{"viaroot", "y"}, "part2")}, g.arg("any", depth)}
 	case 4:
 		if rapid.Bool().Draw(g.t, "knownat") {
 			// the local value of the following steps is a known map
-			g.at = pick(g.t, []string{"$.src.m", "$.src.deep.a", "$.src.objs[0]"}, "atmap")
+			g.at = pick(g.t, []string{"$.src.m", "$.src.deep.a", "$.src.objs[0]", "$.src", "$.src"}, "atmap")
 			return []any{"get", g.at}
 		}
 		g.at = ""
